@@ -232,7 +232,7 @@ class Resolver(object):
                 for c in self.classes_named(base_t):
                     m = c.lookup(expr.attr)
                     if m is not None and any(t == 'property' for t, _ in m.decorators):
-                        for st in m.node.body:
+                        for st in walk_local(m.node):
                             if isinstance(st, ast.Return) and isinstance(st.value, ast.Name):
                                 rc = self.p.resolve_class(m.module, st.value.id)
                                 if rc is not None:
